@@ -315,6 +315,6 @@ def _get_nbits_from_value( value ):
   if -1 <= value <= 1:
     return 1
   if value < 0:
-    return ceil(log2(abs(value)))
+    return (abs(value)-1).bit_length()
   else:
-    return ceil(log2(value+1))
+    return value.bit_length()
